@@ -262,7 +262,14 @@ CLAIMED = {
         'block / UPDATE BINARY loops, unbounded); _read_ndef_data returns exactly the message the independent reading '
         'finds, sends no write command and reports len <= capacity; _discover_ndef takes the real limits of the CC '
         '(capacity + NLEN field = file size, capped at what 16-bit offsets address; MLe/MLc capped at short-APDU '
-        'limits); the octets setter refuses longer data before any command. Type 1/2 (TLV walk with skip bytes) are '
+        'limits); the octets setter refuses longer data before any command. Type 2 write path, for layouts whose '
+        'reserved ranges lie outside the message area (before the NDEF TLV or behind the data area): '
+        '_write_ndef_data proved against an abstract memory image (models.TagImage: linear image + tag memory, '
+        'synchronize() flushes differing pages in ascending order) - the fresh reader finds exactly the message; the '
+        'real Type2TagMemoryReader (__getitem__, __setitem__ for index and slice, synchronize) is proved to refine '
+        'that image against a page-wise ghost tag (representation invariant, every intermediate tag state has the '
+        'shape cache[0:4j] + old[4j:], only differing pages are written). Type 1, and Type 2 with reserved ranges '
+        'inside the message area (TLV walk with skip bytes) are '
         'bounded stand-ins (real code under CPython on 23/44 fixed layouts x boundary lengths, independent TLV reader) '
         'and not counted; the emulated Type 3 Tag is not covered.',
    design_ref='DESIGN.md Part A sections A.4 (this property), A.8',
@@ -288,8 +295,10 @@ CLAIMED = {
    text='Type 3 and Type 4: every write command addresses only blocks 0..Nmaxb resp. octets inside the NDEF file with '
         'the NDEF file selected (interface obligation at each call site), the attribute block keeps everything but '
         'WriteF/Ln/checksum, memory beyond the message keeps its value (frame postcondition over the whole ghost '
-        'memory); Type 4 format(wipe) stays inside the file and leaves an empty message. Type 1/2 are bounded '
-        'stand-ins and not counted.',
+        'memory); Type 4 format(wipe) stays inside the file and leaves an empty message. Type 2 (reserved ranges '
+        'outside the message area): after every prefix of every synchronize() nothing before the NDEF length field and '
+        'nothing behind the data area differs from before (interface obligation of the abstract image at each of the '
+        'three flushes). Type 1, and Type 2 with reserved ranges inside the area, are bounded stand-ins and not counted.',
    design_ref='DESIGN.md Part A sections A.4 (this property), A.8',
    note='Same environment models as C01. Type 3 format() (tt3_sony FelicaLite) and Type 1/2 _format are not covered.',
    technique='contract-based deductive verification: frame conditions on ghost tag memory (pyvc)'),
